@@ -10,13 +10,13 @@ import RimuModel.Block
 namespace Rimu
 open Py Rx
 
-variable {b : Bool}
+variable {b : Reg}
 
 @[nip] theorem NIP.errorCallback (msg : Str) : NIP b (errorCallback msg) := by
   unfold Rimu.errorCallback
   apply NIP.modify
   intro s q l
-  cases b <;> cases h : s.callback <;> simp [pert, h]
+  cases b <;> cases h : s.callback <;> simp [pert, h, List.append_assoc]
 
 @[nip] theorem Match.opt_nip (m : Match) (i : Nat) : NIP b (m.opt i) := by cases b <;> (unfold Match.opt; nip_go)
 @[nip] theorem Match.str_nip (m : Match) (i : Nat) (site : String) : NIP b (m.str i site) := by cases b <;> (unfold Match.str; nip_go)
@@ -136,29 +136,37 @@ end
     with the placeholder queue perturbed (`b = true`) because its first action overwrites the queue, so the two runs
     are one and the same from there on. -/
 
-theorem preReplacements_nip (rec : Rec) (env : Env) (hs : ∀ x, NIP false (rec.spans x)) (text : Str) :
-    NIP false (preReplacements rec env text) := by
+theorem preReplacements_nip (rec : Rec) (env : Env) (hb : b ≠ .saved) (hs : ∀ x, NIP b (rec.spans x)) (text : Str) :
+    NIP b (preReplacements rec env text) := by
   have hr := fragReplacements_nip rec env hs
-  unfold preReplacements; nip_go
+  cases b with
+  | saved => exact absurd rfl hb
+  | ids => unfold preReplacements; nip_go
+  | log => unfold preReplacements; nip_go
 
-theorem postReplacements_nip : ∀ text, NIP false (postReplacements text) := by
+theorem postReplacements_nip (hb : b ≠ .saved) : ∀ text, NIP b (postReplacements text) := by
   intro text
   induction text with
-  | nil => unfold postReplacements; nip_go
+  | nil => cases b <;> (unfold postReplacements; nip_go)
   | cons c rest ih =>
     unfold postReplacements
     split
     · refine NIP.get_bind_rel (fun s q l => ?_)
       cases hsv : s.saved with
       | nil =>
-        simp only [pert, hsv]
-        rfl
+        cases b with
+        | saved => exact absurd rfl hb
+        | ids => simp only [pert, hsv]; rfl
+        | log => simp only [pert, hsv]; rfl
       | cons f more =>
-        have hk : NIP false (do let t ← postReplacements rest
-                                pure ((if c.toNat == 0 then f.text else replaceSpecialChars f.verbatim) ++ t)) := by nip_go
-        simp only [pert, hsv]
-        exact hk { s with saved := more } q l
-    · nip_go
+        have hk : NIP b (do let t ← postReplacements rest
+                            pure ((if c.toNat == 0 then f.text else replaceSpecialChars f.verbatim) ++ t)) := by
+          cases b <;> nip_go
+        cases b with
+        | saved => exact absurd rfl hb
+        | ids => simp only [pert, hsv]; exact hk { s with saved := more } q l
+        | log => simp only [pert, hsv]; exact hk { s with saved := more } q l
+    · cases b <;> nip_go
 
 theorem findQuote_nip (qre : Pat) (text : Str) : ∀ fuel i, NIP b (findQuote qre text fuel i) := by
   intro fuel
@@ -187,13 +195,18 @@ theorem spansRender_saved (rec : Rec) (env : Env) (src : Str) (s : Session) (q :
 theorem spansRender_nip (rec : Rec) (env : Env) (hs : ∀ b x, NIP b (rec.spans x)) (src : Str) :
     NIP b (spansRender rec env src) := by
   cases b with
-  | true =>
+  | saved =>
     intro s q l
     exact AgreeP.of_eq (spansRender_saved rec env src s q)
-  | false =>
-    have hp := preReplacements_nip rec env (hs false)
-    have hq := fragQuote_nip (b := false)
-    have ho := postReplacements_nip
+  | ids =>
+    have hp := preReplacements_nip (b := .ids) rec env (by decide) (hs .ids)
+    have hq := fragQuote_nip (b := .ids)
+    have ho := postReplacements_nip (b := .ids) (by decide)
+    unfold spansRender; nip_go
+  | log =>
+    have hp := preReplacements_nip (b := .log) rec env (by decide) (hs .log)
+    have hq := fragQuote_nip (b := .log)
+    have ho := postReplacements_nip (b := .log) (by decide)
     unfold spansRender; nip_go
 
 end Rimu
